@@ -5,7 +5,7 @@
    dictionary t (exact membership, what the verif probe observes); words and texts are
    arbitrary lists of runes.  The model is the code after fix 5fab757. *)
 From Coq Require Import ZArith List Bool.
-From FV Require Import C14.Model C14.ProofsDict C14.ProofsMatch C14.ProofsWild.
+From FV Require Import C14.Model C14.Spec C14.ProofsDict C14.ProofsMatch C14.ProofsWild C14.ProofsSpec.
 Import ListNotations.
 Open Scope Z_scope.
 
@@ -63,9 +63,6 @@ Theorem c14_pruned : forall ops p, p <> [] -> has_path (root (run ops)) p = true
   exists q, terminal (root (run ops)) (p ++ q) = true.
 Proof. intros ops. destruct (inv_run ops) as [R _]. exact (rep_pruned _ _ R). Qed.
 Print Assumptions c14_pruned.
-
-Lemma root_not_end ops : is_end (root (run ops)) = false.
-Proof. destruct (inv_run ops) as [R Hn]. exact (rep_root_not_end _ _ R Hn). Qed.
 
 (* "For dictionaries of literal words a text is reported as containing a match if and only
    if some dictionary word occurs in it" — literal_ops: no added word contains '*' *)
@@ -133,6 +130,47 @@ Proof.
   apply nc_of_dict; [|exact Hd]. destruct (inv_run ops) as [R _]. exact (rep_pruned _ _ R).
 Qed.
 Print Assumptions c14_wildcard.
+
+(* The executable reference of C14/Spec.v — the dictionary as a plain list of words
+   (spec_run), brute-force occurrence search, the pairwise non-competition test, the
+   coverage mask — is what C14/Run.v evaluates on the IMPLEMENTATION's answers.  The model
+   passes every one of those checks on every history and text ... *)
+Theorem c14_model_passes_reference_checks : forall ops,
+  size (run ops) = Z.of_nat (length (spec_run ops)) /\
+  (forall w, snd (remove w (run ops)) = wmem w (spec_run ops)) /\
+  (forall w, terminal (root (run ops)) w = wmem w (spec_run ops)) /\
+  (forall s, Nat.eqb (length (filter_text (run ops) s)) (length s) = true) /\
+  (forallb literal_word (spec_run ops) = true -> forall s,
+     contains_text (run ops) s = existsb (fun w => occurs_b false w s) (spec_run ops) /\
+     kept_outside s (filter_text (run ops) s) (cover (spec_run ops) O s) = true /\
+     existsb (fun w => occurs_b false w (filter_text (run ops) s)) (spec_run ops) = false) /\
+  (noncompeting (spec_run ops) = true -> forall s,
+     contains_text (run ops) s = existsb (fun w => occurs_b true w s) (spec_run ops)).
+Proof.
+  intros ops. split; [apply model_count|]. split; [apply model_remove|]. split; [apply model_probe|].
+  split; [apply model_filter_length|]. split.
+  - intros Hl s. split; [apply model_contains_literal, Hl|].
+    split; [apply model_filter_outside, Hl | apply model_filter_clean, Hl].
+  - intros Hc s. apply model_contains_wild, Hc.
+Qed.
+Print Assumptions c14_model_passes_reference_checks.
+
+(* ... and the boolean checks mean what the sentences say *)
+Theorem c14_reference_checks_sound :
+  (forall w s, occurs_b false w s = true <-> occurs w s) /\
+  (forall w s, occurs_b true w s = true <-> exists a s1 b, s = a ++ s1 ++ b /\ pmatch w s1) /\
+  (forall w, literal_word w = true <-> ~ In star w) /\
+  (forall d, noncompeting d = true -> nc_dict (fun w => In w d)) /\
+  (forall d s f, kept_outside s f (cover d O s) = true ->
+     forall i, (i < length s)%nat ->
+       nth i f 0 = nth i s 0 \/
+       (nth i f 0 = mask /\ exists a w b, s = a ++ w ++ b /\ In w d /\
+                                          (length a <= i < length a + length w)%nat)).
+Proof.
+  split; [exact occurs_b_literal|]. split; [exact occurs_b_pattern|]. split; [exact literal_word_sound|].
+  split; [exact noncompeting_sound | exact kept_outside_meaning].
+Qed.
+Print Assumptions c14_reference_checks_sound.
 
 (* Non-vacuity. *)
 Definition ex_ops : list op :=
